@@ -475,10 +475,16 @@ PROPS["C10"] = {
              "dict modifier, oneofs, multimaps with primitive/struct/oneof/array/multimap keys and values, arrays of "
              "primitives/enums/structs/oneofs/multimaps, enums, optional primitive and composite fields, string/bytes "
              "dictionaries shared between fields, self and mutual recursion through array, multimap key/value, oneof "
-             "alternative and optional field; quick 4 + stefc's all_features.stef, thorough 60 + 8 of stefc's test schemas; shapes "
-             "for which stefc is KNOWN to emit code that does not compile or does not round-trip are removed by the generator's "
-             "sanitize pass and triggered deliberately instead: 10 fixed tiny 'hazard' schemas, 5 fixed schemas with scripted "
-             "histories), "
+             "alternative and optional field; quick 4 + stefc's all_features.stef, thorough 60 + 8 of stefc's test schemas; one "
+             "draw in four is 'wild': it keeps / plants a shape that stefc refuses since 90dfff4 - dict on an array element, "
+             "optional field or oneof alternative of dictionary-struct type, recursive dictionary struct, struct dictionary not "
+             "named after the struct, one dictionary on string and bytes, non-optional self containment - and is expected to be "
+             "REFUSED by the compiler: a refusal by stefc's validation (before any file is generated) is counted, it is outside "
+             "the quantifier 'every schema the compiler accepts'; h_gen draws until the stated number of schemas is accepted; "
+             "any other stefc failure is the violation stefc-generation-failed; the two shapes stefc still accepts and generates "
+             "broken code for are removed by the generator's sanitize pass and triggered by fixed schemas; 12 fixed tiny "
+             "regression schemas expect their refusal (the old signature fires if one is accepted again and fails), 2 still fail "
+             "to compile (name clashes); fixed schemas with scripted histories for the remaining runtime findings), "
              "each accepted by the repository's idl parser, generated by stefc built from the tree, compiled, and driven by "
              "type-directed histories (recgen: wide value distributions, frame/dict limits, restart flags, none/zstd): the "
              "generated reader AND the Lean specification decoder must return the records set; a case is a history or a build; non-trivial = history with >= 2 "
@@ -508,12 +514,19 @@ PROPS["C04"] = {
              "same-length same-total descriptor -> A reader must return an error); a case is a history; non-trivial = the "
              "expected record differs from the written one (forward/downgrade) or a refusal; distinct by hash"),
     "trusted_base": HGEN_TB + ["hgenlib.extendDump / restrictDump: structural maps between dumps of the two schema versions"],
-    "assumptions": ["the generic theorem init_with_override (B's traversal under A's counts = A's traversal) is NOT proved; "
-                    "interoperability is decided per pair by the cross-package runs with the Lean decoder as oracle",
+    "assumptions": ["the record-level statement (ForwardStatement: decodeStream B on an A stream = A's records extended with "
+                    "defaults) and everything about the Go writer's downgrade are NOT proved; interoperability is decided per pair by "
+                    "the cross-package runs with the Lean decoder as oracle",
+                    "init_with_override is a theorem about the Lean specification decoder's traversal (Spec.mkNode); that the "
+                    "generated Init of the Go packages performs this traversal is tied by the runs (column layout agreement on "
+                    "every stream), not proved", "a pair that stefc refuses is counted and skipped",
                     "a compile failure of a pair is reported under C10 and the pair is skipped here"],
-    "level_text": ("PARTIAL. Lean: theorems about one step of the descriptor-driven traversal of the specification decoder "
-                   "(fetch_consumes, refuse, fetch_again, fetch_twice, fetch_own). forward / downgrade / refuse for all "
-                   "pairs are NOT proved; they are evaluated on code generated for both versions, both directions, with the "
+    "level_text": ("PARTIAL. Lean, for ALL schema pairs A <= B (append-only), all positions, by induction over the mutual traversal: "
+                   "init_with_override (a B reader initialised with A's descriptor builds exactly A's column tree and consumes "
+                   "the descriptor exactly), init_mono (same under any descriptor A accepts), own_descriptor_exact, "
+                   "accepted_counts_within_own (a descriptor with more fields than the reader knows for any visited struct is "
+                   "refused), refuse_root_partial, plus the one-step theorems (fetch_consumes, refuse, fetch_again, fetch_twice, "
+                   "fetch_own). NOT proved: the record level (ForwardStatement, stated in full) and the writer's downgrade; they are evaluated on code generated for both versions, both directions, with the "
                    "Lean decoder as independent oracle. The two defects this found (downgrade-presence-overflow, "
                    "too-new-descriptor-accepted-via-multimap-key) are repaired in /repo (891ea3b, 6e4a662) and tracked as fixed."),
 }
